@@ -332,9 +332,12 @@ func ParseTokenParam(buf []byte, offs int, param *PTokParam,
 					// e.g.: foo;p1 bar => consider bar new param
 					param.state = paramFIN
 					// return separator pos (as expected)
-					if i >= offs+1 {
+					if i >= offs+1 && (buf[i-1] == ' ' || buf[i-1] == '\t' ||
+						buf[i-1] == '\n' || buf[i-1] == '\r') {
 						return i - 1, ErrHdrOk
 					} else {
+						// no separator before the token (e.g. it follows a
+						// closing quote): the token start is the boundary
 						return i, ErrHdrOk
 					}
 				}
@@ -481,9 +484,12 @@ func ParseTokenParam(buf []byte, offs int, param *PTokParam,
 					// e.g.: foo;p1=5 bar =>  consider bar new param
 					param.state = paramFIN
 					// return separator pos (as expected)
-					if i >= offs+1 {
+					if i >= offs+1 && (buf[i-1] == ' ' || buf[i-1] == '\t' ||
+						buf[i-1] == '\n' || buf[i-1] == '\r') {
 						return i - 1, ErrHdrOk
 					} else {
+						// no separator before the token (e.g. it follows a
+						// closing quote): the token start is the boundary
 						return i, ErrHdrOk
 					}
 				}
